@@ -750,6 +750,9 @@ func (x *Exec) minBirth(ref string, depth int) (int, bool) {
 // rowOf reads the backing row of ref in element memory M, looking through stores to objects
 // that were born after every symbol of ref existed (they cannot be the same object).
 func (x *Exec) rowOf(M Term, ref Term) Term {
+	if strings.Contains(ref.S, "$") {
+		return Select(M, ref) // depends on a bound variable: cannot be bound to a constant
+	}
 	base := x.skipStores(M.S, maxIndex(ref.S), 0)
 	return x.ctx.Name("row", Select(Term{S: base, Sort: M.Sort}, ref))
 }
